@@ -247,6 +247,10 @@ func bigCuts(g bigGen, f bigFile, bodyStart int, thorough bool) []int {
 	add := func(k int) {
 		if f.ascii && k > bodyStart {
 			k = snapToken(data, k)
+			// ... and right after the separator that follows the token (the prefix ends with a blank)
+			if k+1 < len(data) && data[k] == ' ' {
+				set[k+1] = true
+			}
 		}
 		if k >= 0 && k < len(data) {
 			set[k] = true
